@@ -1,14 +1,2 @@
-"""Per-property manifest metadata (level text, notes, technique). MANIFEST.json is generated from this by lib/mkmanifest.py."""
-CLAIMS = {
-    "C06": dict(
-        category="model_checking", design_ref="DESIGN.md §4 C06", engine="cycle",
-        text="TLC enumerates every digraph on 4 (quick) / 5 (thorough) targets as an initial state of CycleDetector.tla, "
-             "checks soundness and completeness of the algorithm-level DFS model on each, and every graph is rebuilt as a real "
-             "core.BuildGraph and run through the real cycle detector; the verdict is the property itself (cycle reported iff cyclic, "
-             "reported cycle is a closed walk of real edges), never equality with the model's cycle. Larger graphs come from tlc -simulate "
-             "growing a 9-node graph edge by edge.",
-        note="Exhaustive only within the bound; self-loops are model-only because the code refuses to declare them; "
-             "trusted: TLC, the JSON case decoding, the harness's graph construction through AddDependency/ResolveDependencies.",
-        technique="TLA+ spec CycleDetector.tla model-checked with TLC; TLC-enumerated cases replayed into the real cycle detector"),
-}
+"""Reasons for properties not claimed (property id -> reason)."""
 NOT_APPLICABLE = {}
